@@ -45,6 +45,9 @@ Verdict check_alloc(const Plan& plan, Stats& st) {
     bool any_fault = false;
 
     auto has_relevant = [&]() { for (auto& v : g.violations) if (kind_relevant("C15", v.kind)) return true; return false; };
+    // errno at entry is whatever earlier calls left there (often ENOMEM from a failed request); where the statement demands ENOMEM
+    // afterwards the entry value is something else, so that the demand is not met by accident
+    auto entry_errno = [&](int opi, bool must_set_enomem) { static const int kErr[] = {0, ENOMEM, EINVAL, ENOMEM, ERANGE, 0, ENOMEM, EDOM}; int e = kErr[((plan.junk >> 9) + (unsigned)opi * 3u) & 7]; return (must_set_enomem && e == ENOMEM) ? EDOM : e; };
     auto fail = [&](int opi, const std::string& what) { g.cur->op = opi; violate(V_ALLOC_MODEL, what, false); };
     auto fill = [&](Handle& x) { for (size_t i = 0; i < x.size; i++) x.p[i] = (unsigned char)(x.pat + (unsigned char)i); };
     auto check_content = [&](const Handle& x, const unsigned char* p, size_t n) { for (size_t i = 0; i < n; i++) if (p[i] != (unsigned char)(x.pat + (unsigned char)i)) return false; return true; };
@@ -99,7 +102,7 @@ Verdict check_alloc(const Plan& plan, Stats& st) {
             size_t total = cal ? n1 * n2 : n1;
             bool ovf = cal ? (n1 && total / n1 != n2) : false;
             bool hdr_ovf = !ovf && total > (size_t)-1 - sizeof(size_t);
-            errno = 0;
+            errno = entry_errno(i, ovf);
             call_begin(i, -1, mid, fp);
             LIBCALL_RUN({ res = (unsigned char*)(cal ? mem->calloc(mem, n1, n2) : mem->malloc(mem, n1)); }, ok);
             int fired = g.cur->fired, reqs = g.cur->req_count; call_end();
@@ -136,7 +139,7 @@ Verdict check_alloc(const Plan& plan, Stats& st) {
             unsigned char* old = (x && x->live) ? x->p : nullptr;
             size_t old_size = (x && x->live) ? x->size : 0;
             bool hdr_ovf = !ovf && total > (size_t)-1 - sizeof(size_t);
-            errno = 0;
+            errno = entry_errno(i, ovf);
             call_begin(i, -1, mid, fp);
             LIBCALL_RUN({ res = (unsigned char*)(arr ? mem->reallocarray(mem, old, n1, n2) : mem->realloc(mem, old, n1)); }, ok);
             int fired = g.cur->fired; call_end();
@@ -193,6 +196,7 @@ Verdict check_alloc(const Plan& plan, Stats& st) {
         }
         case OP_A_FREE: {
             unsigned char* old = (x && x->live) ? x->p : nullptr;
+            errno = entry_errno(i, false);
             call_begin(i, -1, mid, FaultPlan());
             LIBCALL_RUN({ mem->free(mem, old); }, ok); call_end();
             if (x && x->live) {
@@ -204,6 +208,7 @@ Verdict check_alloc(const Plan& plan, Stats& st) {
         }
         case OP_A_SELFTEST: {
             int live_before = heap_live_count();
+            errno = entry_errno(i, false);
             call_begin(i, -1, mid, FaultPlan());
             LIBCALL_RUN({ rc = uriTestMemoryManager(mem); }, ok); call_end();
             if (!ok) break;
